@@ -13,4 +13,4 @@ require (
 	gopkg.in/yaml.v2 v2.4.0 // indirect
 )
 
-replace github.com/snower/slock => /tmp/m-wt
+replace github.com/snower/slock => /repo
